@@ -51,11 +51,13 @@ pub struct Sched {
     pub m: u64,
     /// window length in bytes (accesses beyond it are served from slack and reported)
     pub len: usize,
+    /// offset of the first configuration read (which field the driver's closure reads first)
+    pub first_cfg_off: Option<usize>,
 }
 
 impl Sched {
     pub fn single(cfg: Vec<u8>, len: usize) -> Self {
-        Sched { tick: 0, at: vec![], cfgs: vec![cfg], cur: 0, applied: 0, gen0: 0, m: 1 << 32, len }
+        Sched { tick: 0, at: vec![], cfgs: vec![cfg], cur: 0, applied: 0, gen0: 0, m: 1 << 32, len, first_cfg_off: None }
     }
     pub fn before_read(&mut self) {
         let n = self.at.iter().filter(|p| **p <= self.tick).count();
@@ -71,6 +73,9 @@ impl Sched {
         &mut self.cfgs[c]
     }
     fn read(&mut self, off: usize, width: u8) -> u64 {
+        if self.first_cfg_off.is_none() {
+            self.first_cfg_off = Some(off);
+        }
         self.before_read();
         let ram = self.ram();
         let mut v = 0u64;
@@ -428,6 +433,9 @@ fn access_step<X: Transport>(c: &mut Case, t: &mut X, st: &Rc<RefCell<VState>>, 
             }
         }
     };
+    // an offset so large that `off + size` overflows the address type is refused without an access:
+    // by the overflow check (a clean panic) or by an explicit error — both satisfy the property
+    let out = if off.checked_add(size).is_none() && align <= 4 && off % align == 0 && acc.is_empty() && (out == "panic" || out == "err ConfigSpaceTooSmall") { "refused-overflow".to_string() } else { out };
     // ---- oracle, from the property text ----
     if !foreign.is_empty() {
         c.fail(format!("{}: config access touched something else: {}", op, foreign.join(" ")));
@@ -803,6 +811,11 @@ impl<T: Transport> Transport for Ticking<T> {
             !t.config.is_empty() && offset + size_of::<V>() <= t.config.len()
         };
         if ok {
+            let mut s = self.sched.borrow_mut();
+            if s.first_cfg_off.is_none() {
+                s.first_cfg_off = Some(offset);
+            }
+            drop(s);
             self.tick();
         }
         self.inner.read_config_space(offset)
@@ -838,6 +851,8 @@ impl Tk {
 }
 
 struct RunOut {
+    /// offset of the first configuration read
+    first: Option<usize>,
     result: Result<u128, String>,
     ticks: usize,
     applied: usize,
@@ -849,7 +864,7 @@ fn run_one(d: Drv, tk: Tk, len: usize, at: &[usize], gen0: u64) -> RunOut {
     hal::reset();
     mmio::reset();
     mmio::with(|b| b.budget = 200_000);
-    let sched = Sched { tick: 0, at: at.to_vec(), cfgs: d.configs(len), cur: 0, applied: 0, gen0, m: tk.modulus(), len };
+    let sched = Sched { tick: 0, at: at.to_vec(), cfgs: d.configs(len), cur: 0, applied: 0, gen0, m: tk.modulus(), len, first_cfg_off: None };
     match tk {
         Tk::Model => {
             let sched = Rc::new(RefCell::new(sched));
@@ -861,8 +876,8 @@ fn run_one(d: Drv, tk: Tk, len: usize, at: &[usize], gen0: u64) -> RunOut {
             let r = guarded(|| drive::<LedgerHal, _>(d, t));
             let s = sched.borrow();
             match r {
-                Ok(result) => RunOut { result, ticks: s.tick, applied: s.applied, panicked: None },
-                Err(p) => RunOut { result: Err("panic".into()), ticks: s.tick, applied: s.applied, panicked: Some(p) },
+                Ok(result) => RunOut { first: s.first_cfg_off, result, ticks: s.tick, applied: s.applied, panicked: None },
+                Err(p) => RunOut { first: s.first_cfg_off, result: Err("panic".into()), ticks: s.tick, applied: s.applied, panicked: Some(p) },
             }
         }
         Tk::MmioModern => {
@@ -875,8 +890,8 @@ fn run_one(d: Drv, tk: Tk, len: usize, at: &[usize], gen0: u64) -> RunOut {
             });
             let s = st.borrow();
             match r {
-                Ok(result) => RunOut { result, ticks: s.sched.tick, applied: s.sched.applied, panicked: None },
-                Err(p) => RunOut { result: Err("panic".into()), ticks: s.sched.tick, applied: s.sched.applied, panicked: Some(p) },
+                Ok(result) => RunOut { first: s.sched.first_cfg_off, result, ticks: s.sched.tick, applied: s.sched.applied, panicked: None },
+                Err(p) => RunOut { first: s.sched.first_cfg_off, result: Err("panic".into()), ticks: s.sched.tick, applied: s.sched.applied, panicked: Some(p) },
             }
         }
         Tk::Pci => {
@@ -887,8 +902,8 @@ fn run_one(d: Drv, tk: Tk, len: usize, at: &[usize], gen0: u64) -> RunOut {
             });
             let s = st.borrow();
             match r {
-                Ok(result) => RunOut { result, ticks: s.sched.tick, applied: s.sched.applied, panicked: None },
-                Err(p) => RunOut { result: Err("panic".into()), ticks: s.sched.tick, applied: s.sched.applied, panicked: Some(p) },
+                Ok(result) => RunOut { first: s.sched.first_cfg_off, result, ticks: s.sched.tick, applied: s.sched.applied, panicked: None },
+                Err(p) => RunOut { first: s.sched.first_cfg_off, result: Err("panic".into()), ticks: s.sched.tick, applied: s.sched.applied, panicked: Some(p) },
             }
         }
     }
@@ -931,6 +946,13 @@ pub fn consistent_case(ctx: &Ctx, idx: usize, id: String) -> Case {
     // dry run: how many device-visible reads does the undisturbed multi-field read take?
     let dry = run_one(d, tk, len, &[], gen0);
     let n0 = dry.ticks;
+    // the order in which the closure reads its two fields is the driver's choice (the property does
+    // not fix it): the model follows the order observed on the undisturbed run
+    // (observed with the whole structure in the window: with a short window the first field read may
+    // already be refused, without an access)
+    let full_len = if tk == Tk::Pci { (full / 4 * 4).max(4) } else { full };
+    let probe = if len == full_len { dry.first } else { run_one(d, tk, full_len, &[], gen0).first };
+    let swap = matches!(d, Drv::Blk | Drv::Vsock | Drv::Console) && probe.map(|o| o != 0).unwrap_or(false);
     let horizon = 2 * n0 + 2;
     let mut schedules: Vec<Vec<usize>> = vec![vec![]];
     for p in 0..=horizon {
@@ -957,7 +979,7 @@ pub fn consistent_case(ctx: &Ctx, idx: usize, id: String) -> Case {
     for at in schedules {
         let out = run_one(d, tk, len, &at, gen0);
         let op = format!(
-            "config consistent prog={} gran={} kind={} present=1 len={} base=0 extra={} m={:#x} gen0={:#x} ncfg=3{} at={} drv={} on={}",
+            "config consistent prog={} gran={} kind={} present=1 len={} base=0 extra={} m={:#x} gen0={:#x} ncfg=3{} at={} drv={} on={}{}",
             d.prog(),
             gran,
             if tk == Tk::Pci { "pci" } else { "mmio" },
@@ -968,7 +990,8 @@ pub fn consistent_case(ctx: &Ctx, idx: usize, id: String) -> Case {
             cfg_args,
             if at.is_empty() { "-".to_string() } else { at.iter().map(|p| p.to_string()).collect::<Vec<_>>().join(",") },
             d.name(),
-            tk.name()
+            tk.name(),
+            if swap { " swap=1" } else { "" }
         );
         let impl_out = match &out.result {
             Ok(v) => format!("ok {:#x} ticks={}", v, out.ticks),
